@@ -54,7 +54,7 @@ fn s3(data: &[u8]) -> Vec<u8> {
 }
 
 macro_rules! byte_hasher {
-    ($ty:ty, $name:expr, $field:ty, $p:expr, $w:expr, $f:expr, $mk:expr) => {
+    ($ty:ty, $name:expr, $field:ty, $p:expr, $w:expr, $f:expr, $mk:expr, $alt:expr) => {
         impl HSpec for $ty {
             const NAME: &'static str = $name;
             const P: u128 = $p;
@@ -78,15 +78,28 @@ macro_rules! byte_hasher {
             fn base(r: u128) -> $field {
                 $mk(r)
             }
+            fn alt_image(r: u128) -> Option<$field> {
+                $alt(r)
+            }
         }
     };
 }
 
-byte_hasher!(hashers::Blake3_256<B64>, "blake3_256/f64", B64, P64, 8, |d: &[u8]| b3(d, 32), |r: u128| B64::new(r as u64));
-byte_hasher!(hashers::Blake3_192<B62>, "blake3_192/f62", B62, P62, 8, |d: &[u8]| b3(d, 24), |r: u128| B62::new(r as u64));
-byte_hasher!(hashers::Sha3_256<B128>, "sha3_256/f128", B128, rm::P128, 16, |d: &[u8]| s3(d), |r: u128| B128::new(r));
-byte_hasher!(hashers::Blake3_256<B128>, "blake3_256/f128", B128, rm::P128, 16, |d: &[u8]| b3(d, 32), |r: u128| B128::new(r));
-byte_hasher!(hashers::Sha3_256<B64>, "sha3_256/f64", B64, P64, 8, |d: &[u8]| s3(d), |r: u128| B64::new(r as u64));
+/// the documented internal range of the 62-bit field is [0, 2M): the image of r plus M denotes the same residue
+fn alt62(r: u128) -> Option<B62> {
+    let img = rm::mulm(r, (1u128 << 64) % P62, P62) + P62;
+    let raw = [img as u64];
+    let bytes = unsafe { std::slice::from_raw_parts(raw.as_ptr() as *const u8, 8) };
+    Some(unsafe { B62::bytes_as_elements(bytes) }.unwrap()[0])
+}
+
+byte_hasher!(hashers::Blake3_256<B64>, "blake3_256/f64", B64, P64, 8, |d: &[u8]| b3(d, 32), |r: u128| B64::new(r as u64), |_r: u128| -> Option<B64> { None });
+byte_hasher!(hashers::Blake3_192<B62>, "blake3_192/f62", B62, P62, 8, |d: &[u8]| b3(d, 24), |r: u128| B62::new(r as u64), alt62);
+byte_hasher!(hashers::Sha3_256<B128>, "sha3_256/f128", B128, rm::P128, 16, |d: &[u8]| s3(d), |r: u128| B128::new(r), |_r: u128| -> Option<B128> { None });
+byte_hasher!(hashers::Blake3_256<B128>, "blake3_256/f128", B128, rm::P128, 16, |d: &[u8]| b3(d, 32), |r: u128| B128::new(r), |_r: u128| -> Option<B128> { None });
+byte_hasher!(hashers::Sha3_256<B64>, "sha3_256/f64", B64, P64, 8, |d: &[u8]| s3(d), |r: u128| B64::new(r as u64), |_r: u128| -> Option<B64> { None });
+byte_hasher!(hashers::Sha3_256<B62>, "sha3_256/f62", B62, P62, 8, |d: &[u8]| s3(d), |r: u128| B62::new(r as u64), alt62);
+byte_hasher!(hashers::Blake3_256<B62>, "blake3_256/f62", B62, P62, 8, |d: &[u8]| b3(d, 32), |r: u128| B62::new(r as u64), alt62);
 
 fn digest_res<D: Digest>(d: &D, spec: &RescueSpec) -> Vec<u128> {
     // digest elements as residues, recovered from the canonical 32-byte form
@@ -766,7 +779,7 @@ fn main() {
     match args.prop.clone().as_str() {
         "C11" => {
             let run = Run::new(args, "exploration");
-            run.rule("for all six hashers (byte hashers on two fields each): byte strings of every length 0..=200 (330 thorough) x {zeros, 0xff, counter} against the reference definition, all pairs of zero strings must differ, appended zero byte/element must change the digest; element lists of every length 0..=3*rate+1 x 8 boundary leading members, with base/quadratic/cubic typing and alternative legal internal images; merge vs documented definition for all ordered pairs of 5 digests; merge_with_int vs documented layout and pairwise injectivity over integer classes below/at/above the modulus; Rescue permutations vs a reference round function on boundary-limb and seeded states; frequency-domain MDS products vs plain matrix products on every state of {0,2^32-1,2^32,p-1}^8 and {..}^12 (3 limbs in quick); published constants vs defining equations and a pinned fingerprint; distinct by enumeration index");
+            run.rule("for all six hashers (byte hashers on two or three fields each, all of them over the 62-bit field with its second legal internal images): byte strings of every length 0..=200 (330 thorough) x {zeros, 0xff, counter} against the reference definition, all pairs of zero strings must differ, appended zero byte/element must change the digest; element lists of every length 0..=3*rate+1 x 8 boundary leading members, with base/quadratic/cubic typing and alternative legal internal images; merge vs documented definition for all ordered pairs of 5 digests; merge_with_int vs documented layout and pairwise injectivity over integer classes below/at/above the modulus; Rescue permutations vs a reference round function on boundary-limb and seeded states; frequency-domain MDS products vs plain matrix products on every state of {0,2^32-1,2^32,p-1}^8 and {..}^12 (3 limbs in quick); published constants vs defining equations and a pinned fingerprint; distinct by enumeration index");
             run.assume("reference: blake3 / sha3 crates over canonical little-endian bytes; textbook sponge from the doc comments with the crate's published MDS/ARK constants (checked against defining equations and a pinned fingerprint)");
             let mut subs = vec![];
             subs.extend(c11_subs::<hashers::Blake3_256<B64>>(&run));
@@ -774,6 +787,8 @@ fn main() {
             subs.extend(c11_subs::<hashers::Sha3_256<B128>>(&run));
             subs.extend(c11_subs::<hashers::Blake3_256<B128>>(&run));
             subs.extend(c11_subs::<hashers::Sha3_256<B64>>(&run));
+            subs.extend(c11_subs::<hashers::Sha3_256<B62>>(&run));
+            subs.extend(c11_subs::<hashers::Blake3_256<B62>>(&run));
             subs.extend(c11_subs::<hashers::Rp64_256>(&run));
             subs.extend(c11_subs::<hashers::Rp62_248>(&run));
             subs.extend(c11_subs::<hashers::RpJive64_256>(&run));
